@@ -3511,7 +3511,9 @@ impl<'source> Parser<'source> {
         }
 
         if catch_blocks.is_empty() {
-            return self.error(SyntaxError::ExpectedCatch);
+            // Report the error at the token that follows the try block (the offending token),
+            // rather than at the last token of the block.
+            return self.consume_token_and_error(SyntaxError::ExpectedCatch);
         }
 
         let finally_block = match self.peek_token_with_context(&outer_context) {
